@@ -232,7 +232,7 @@ fn rejection_cost(spec: &Spec) -> f64 {
 
 fn check_setting(ctx: &Ctx, setting: &Setting, seed: u64, n_target: usize) {
     let spec = &setting.spec;
-    let n = n_target.min((4e8 / rejection_cost(spec)) as usize).max(if rejection_cost(spec) > 3e5 { 1_200 } else if rejection_cost(spec) > 2e4 { 3_000 } else { 20_000 });
+    let n = n_target.min((4e8 / rejection_cost(spec)) as usize).max(if rejection_cost(spec) > 3e6 { 40 } else if rejection_cost(spec) > 3e5 { 1_200 } else if rejection_cost(spec) > 2e4 { 3_000 } else { 20_000 });
     // very wide boxes: thousands of pairwise independence tests, fewer samples each
     let n = if spec.width() >= 40 { n.min(20_000) } else { n };
     let eps = dkw_eps(n);
@@ -364,6 +364,9 @@ fn settings(r: &mut Sm, k: usize) -> Vec<Setting> {
     // distance between the cubic angle law and, say, a uniform angle) and a box with more than 48
     // coordinates (all 2 450 ordered pairs are tested for independence)
     v.push(Setting { spec: Spec::plain(Wrap::So3, CK::So3 { bounds: Some((r.quat(), 0.07)) }, None), via: "direct" });
+    // a cone of 0.033 rad: two million candidates per sample by rejection, so 40 samples
+    // (epsilon 0.52) - enough to tell the cubic angle law from a point mass or a shell
+    v.push(Setting { spec: Spec::plain(Wrap::So3, CK::So3 { bounds: Some((r.quat(), 0.033)) }, None), via: "direct" });
     v.push(Setting { spec: Spec::plain(Wrap::R, CK::R { n: 50, bounds: Some(rb(r, 50)) }, None), via: "direct" });
     // sides of equal length at different offsets
     v.push(Setting { spec: Spec::plain(Wrap::R, CK::R { n: 3, bounds: Some(vec![(0.0, 10.0), (2.0, 12.0), (-7.0, 3.0)]) }, None), via: "direct" });
